@@ -53,7 +53,7 @@ HopClause(r) ==
        ELSE IF s.tag # exp.tag THEN [c |-> "HeadersKept", tag |-> ""]
        ELSE IF ~WellFormed(s) THEN [c |-> "ok", tag |-> ""]          \* an undocumented Location form made the client send a malformed request: drift, see Next
        ELSE IF ns # {} THEN [c |-> "CookieNotSent", tag |-> IF \A c \in ns : KeyOf(c) \in dotkeys THEN "leading-dot-domain" ELSE ""]
-       ELSE IF Leaked(jar, s.host, s.path, S) # {} THEN [c |-> "CookieLeaked", tag |-> IF \A p \in Leaked(jar, s.host, s.path, S) : \E k \in dotkeys : k[3] = p[1] THEN "leading-dot-domain" ELSE ""]
+       ELSE IF Leaked(jar, s.host, s.path, S) # {} THEN [c |-> "CookieLeaked", tag |-> IF \A p \in Leaked(jar, s.host, s.path, S) : \E k \in dotkeys : k[3] = p[1] /\ DomainMatch(s.host, k[1], FALSE) /\ PathMatch(s.path, k[2]) THEN "leading-dot-domain" ELSE ""]
        ELSE [c |-> "ok", tag |-> ""]
 \* the phase after the application's answer
 HopPhase(r) ==
